@@ -200,7 +200,7 @@ CONFIGS: Dict[str, Dict[str, List[Dict[str, Any]]]] = {
     },
     "Sokoban": {
         # the registered default generator downloads the DeepMind dataset: not explorable offline
-        "quick": [_c("toy", gen="toy"), _c("randL7", gen="harness", border=False, time_limit=7)],
+        "quick": [_c("toy", gen="toy"), _c("randL7", gen="harness", border=False, time_limit=7), _c("rand", gen="harness", border=False, time_limit=40)],
         "thorough": [
             _c("toy", gen="toy"), _c("simple", gen="simple"), _c("randL7", gen="harness", border=False, time_limit=7),
             _c("randborder", gen="harness", border=True, time_limit=60), _c("randsparseL3", gen="harness", border=False, reward="sparse", time_limit=3),
